@@ -139,10 +139,19 @@ def rule_y3(chk: Check, ix: Index):
         def get_lines(self, nums):
             return [f"<{n}>\n" for n in nums]
     me = _t.SimpleNamespace(_tokenizer=_Tk(), filename="FILE")
+    # class-level literal constants of Parser are visible through `self`
+    for cst in next((c.body for c in ast.walk(ix.modules[repo.SUBHEADER]) if isinstance(c, ast.ClassDef) and c.name == "Parser"), []):
+        tgt = cst.targets[0] if isinstance(cst, ast.Assign) and len(cst.targets) == 1 else getattr(cst, "target", None)
+        if isinstance(tgt, ast.Name) and getattr(cst, "value", None) is not None:
+            try:
+                setattr(me, tgt.id, ast.literal_eval(cst.value))
+            except Exception:
+                pass
     ev = constfold.builder_expr_eval(("diagnose", "get_lines", "join", "SyntaxError", "IndentationError"))
     params = [a.arg for a in f.node.args.args]
     for label, S, E in (("no-span", None, None), ("start-only", (5, 2), None), ("end-only", None, (9, 4)), ("both", (5, 2), (6, 1)),
-                        ("end-at-column-0", (5, 2), (6, 0)), ("same-position", (5, 0), (5, 0)), ("end-only-column-0", None, (9, 0))):
+                        ("end-at-column-0", (5, 2), (6, 0)), ("same-position", (5, 0), (5, 0)), ("end-only-column-0", None, (9, 0)),
+                        ("long-range", (5, 2), (40, 1))):
         chk.count("Y3-text-provenance")
         try:
             err = constfold.eval_pure_function(f.node, {params[0]: me, params[1]: "MSG", params[2]: S, params[3]: E},
